@@ -90,6 +90,8 @@ class Path:
         t0 = time.time()
         r = s.check()
         self.engine.stats["feasibility_s"] += time.time() - t0
+        if r == z3.unknown:
+            self.unsure = True          # explored although possibly infeasible: a dead end on this path is not a fault
         return r != z3.unsat
 
     def _sync_atoms(self):
